@@ -22,7 +22,10 @@ print('suite: stable-not-passed =', len(stable-passed), sorted(stable-passed)[:3
 PY
 cd /verif
 mkdir -p /root/work/eval-evidence /root/work/eval-replays
+# keep the generated Lean files of the clean tree aside: the runs below regenerate them from the mutant
+GEN=$(cd /verif && ls lean/TIV/*/Generated.lean lean/TIV/*/Translated.lean lean/TIV/Common/GenCtl.lean 2>/dev/null)
+SAVE=$(mktemp -d /root/work/gen-save-XXXXXX)
+(cd /verif && tar cf "$SAVE/gen.tar" $GEN)
 for s in ${SEEDS:-0}; do VERIF_EVIDENCE_DIR=/root/work/eval-evidence VERIF_REPLAY_DIR=/root/work/eval-replays VERIF_REPO="$WT" VERIF_SEED=$s ./check "$PID" ${TIER:+--tier $TIER} 2>&1 | grep -v "^KNOWN" | tail -2; done
 git -C "$WT" checkout -q -- . ; git -C "$WT" clean -fdq
-# restore the generated Lean files to the committed (clean-tree) baseline: the run above regenerated them from the mutant
-git -C /verif checkout -q -- $(git -C /verif ls-files 'lean/TIV/*/Generated.lean' 'lean/TIV/*/Translated.lean' 'lean/TIV/Common/GenCtl.lean') 2>/dev/null
+(cd /verif && tar xf "$SAVE/gen.tar"); rm -rf "$SAVE"
